@@ -306,10 +306,12 @@ def check_rel(reported, xv, mv, clause, mag=None):
     r = as_float(reported, clause)
     if mag is not None and np.isfinite(mag):
         x2 = float(np.asarray(xv, dtype=float).ravel() @ np.asarray(xv, dtype=float).ravel())
-        if mag > 1e100 * x2:
-            # components 1e50 times larger than the data (seen: l2_reg + normalize_factors on rank-deficient data,
-            # weights underflow): squares of such numbers overflow in the library and in the harness alike
-            discard("diverged iterate (|components| > 1e50 |X|)")
+        if SQ_TOL * mag >= x2:
+            # components more than 3e4 times larger than the data: the tolerance 1e-9 (1 + mag/|X|^2) is >= 1, i.e. the
+            # value comparison is vacuous, and the Gram-based ||model||^2 of such an iterate can cancel to a negative
+            # number or overflow (seen: l2_reg / orthogonalise + normalize_factors on rank-deficient data: cp_norm -> NaN
+            # with component norms 1e32 and 1e-48, reported inf with true error 1e52).  Counted discard.
+            discard("degenerate iterate (|components| > 3e4 |X|): comparison vacuous")
     check(np.isfinite(r), clause + "/finite", lambda: f"reported error is {r}")
     check(r >= 0, clause + "/sign", lambda: f"reported error is negative: {r}")
     ok, msg, true = rel_matches(r, xv, mv, mag)
